@@ -68,7 +68,7 @@ def scan_field_types(prog, crates):
                 if not fn.endswith(".rs"):
                     continue
                 text = re.sub(r"//[^\n]*", "", open(os.path.join(root, fn), errors="replace").read())
-                for m in re.finditer(r"\bstruct\s+([A-Za-z_0-9]+)\s*\{", text):
+                for m in re.finditer(r"\bstruct\s+([A-Za-z_0-9]+)\s*(?:<[^>{(]*>)?\s*\{", text):
                     body = text[m.end():_match_close(text, m.end() - 1)]
                     fs = []
                     for part in split_top(body):
@@ -77,7 +77,7 @@ def scan_field_types(prog, crates):
                         if mm:
                             fs.append((mm.group(1), mm.group(2).strip()))
                     prog.field_types.setdefault(m.group(1), fs)
-                for m in re.finditer(r"\bstruct\s+([A-Za-z_0-9]+)\s*\(", text):
+                for m in re.finditer(r"\bstruct\s+([A-Za-z_0-9]+)\s*(?:<[^>{(]*>)?\s*\(", text):
                     body = text[m.end():_match_close(text, m.end() - 1)]
                     fs = []
                     for k, part in enumerate(split_top(body)):
@@ -97,13 +97,14 @@ class Sym:
         self.vars = {}
         self.consts = consts
 
-    def make(self, ty, name):
+    def make(self, ty, name, lenient=False):
         ty = ty.strip()
         if ty.startswith("&"):
             inner = ty[1:].strip()
+            inner = re.sub(r"^'[a-z_]+\s+", "", inner)
             if inner.startswith("mut "):
                 inner = inner[4:]
-            return Ref(Cell(self.make(inner, name)))
+            return Ref(Cell(self.make(inner, name, lenient)))
         if self.consts is not None and (ty in INT_TYPES or ty == "bool" or ty.split("::")[-1] in self.prog.enums):
             self.vars[name] = ty
             base = ty.split("::")[-1]
@@ -112,6 +113,9 @@ class Sym:
             if base in self.prog.enums and ty not in INT_TYPES:
                 return Enum(I(self.consts[name]), {}, base)
             return I(self.consts[name])
+        if ty in INT_TYPES and name in getattr(self, "partial", {}):
+            self.vars[name] = ty
+            return I(self.partial[name])
         if ty in INT_TYPES:
             v = tm.V(name)
             bits, signed = INT_TYPES[ty]
@@ -122,14 +126,25 @@ class Sym:
             self.vars[name] = ty
             return tm.V(name, "B")
         base = ty.split("::")[-1]
+        base = re.sub(r"<.*$", "", base)
         if base in self.prog.field_types:
-            return Agg([self.make(fty, f"{name}.{fname}") for fname, fty in self.prog.field_types[base]])
+            out = []
+            for fname, fty in self.prog.field_types[base]:
+                try:
+                    out.append(self.make(fty, f"{name}.{fname}", True))
+                except Unsupported:
+                    from .execmir import Opaque
+                    out.append(Opaque(f"{name}.{fname}: {fty}"))
+            return Agg(out)
         if base in self.prog.enums:
             vs = self.prog.enums[base]
             v = tm.V(name)
             self.assumes.append(tm.or_(*[tm.eq(v, I(k)) for k in sorted(vs.values())]))
             self.vars[name] = "enum " + base
             return Enum(v, {}, base)
+        if lenient or ty.startswith("opaque"):
+            from .execmir import Opaque
+            return Opaque(f"{name}: {ty}")
         raise Unsupported("symbolic value of type " + ty)
 
 
@@ -180,6 +195,16 @@ def _eval(t, model):
     raise ValueError(op)
 
 
+def _extra_models(o, args):
+    """Obligation-specific environment stubs: [(regex, fn(ex, m, args, tys, st, fn, symargs))] ->
+    models in the executor's format. A stub returns an arbitrary value of its type (a fresh or named
+    symbolic variable): the environment is nondeterministic, constrained only by its contract."""
+    out = []
+    for pat, f in o.get("env_models", []):
+        out.append((re.compile(pat), (lambda f: lambda ex, m, a, tys, st, fn: f(ex, m, a, tys, st, fn, args))(f)))
+    return out
+
+
 def flatten(v):
     if isinstance(v, T):
         if not v.is_const:
@@ -205,7 +230,9 @@ def interpret(prog, o, fn, consts):
     """Concrete MIR interpretation of the target on one input vector -> flat ints | 'panic'."""
     sym = Sym(prog, consts)
     argvals = [sym.make(aty, an) for (an, aty) in o["args"]]
-    ex = Executor(prog, unroll=o.get("unroll", 8) + 64, models=_models.MODELS)
+    symargs = dict(zip([a for a, _ in o["args"]], argvals))
+    symargs["__consts__"] = consts
+    ex = Executor(prog, unroll=o.get("unroll", 8) + 64, models=_extra_models(o, symargs) + _models.MODELS)
     ex.const_env = o.get("const_generics", {})
     paths = ex.run(fn, argvals, State())
     for ob in ex.obligations:
@@ -284,6 +311,41 @@ def find_target(prog, spec):
 
 
 def run_obligation(prop, o, tier):
+    """With o["sweep"] = (var, [values]) the obligation is decided once per value with that variable a
+    constant (used where a symbolic operand makes the query non-linear and no solver finishes)."""
+    sw = o.get("sweep_quick" if tier == "quick" else "sweep") or o.get("sweep")
+    if not sw:
+        return run_obligation_one(prop, o, tier, None)
+    var, values = sw
+    agg = None
+    t0 = time.time()
+    wseen = set()
+    for v in values:
+        r = run_obligation_one(prop, o, tier, {var: v})
+        wseen |= set(r.get("witness_names", []))
+        if agg is None:
+            agg = r
+            agg["sweep_values"] = 1
+        else:
+            agg["sweep_values"] += 1
+            for k in ("solver_queries", "solver_s"):
+                agg[k] = agg.get(k, 0) + r.get(k, 0)
+        if r["verdict"] != "holds":
+            r["detail"] = f"[{var}={v}] " + r.get("detail", "")
+            for k in ("solver_queries", "solver_s"):
+                r[k] = agg.get(k, 0)
+            r["seconds"] = time.time() - t0
+            return r
+    agg["witnesses_satisfied"] = len(wseen)
+    if len(wseen) < agg.get("witnesses_total", 0):
+        agg["verdict"] = "vacuous"
+        agg["detail"] = "a witness was unsatisfiable for every sweep value"
+    agg["seconds"] = time.time() - t0
+    agg["sample"]["sweep"] = f"{var} bound to each of {len(values)} constants: {values[:6]}..."
+    return agg
+
+
+def run_obligation_one(prop, o, tier, bind):
     t0 = time.time()
     res = {"obligation": o, "solver_queries": 0, "solver_s": 0.0, "witnesses_total": 0, "witnesses_satisfied": 0}
     timeout = o.get("smt_timeout", 60 if tier == "quick" else 600)
@@ -291,6 +353,8 @@ def run_obligation(prop, o, tier):
         prog = program(o["crates"])
         fn = find_target(prog, o["fn"])
         sym = Sym(prog)
+        if bind:
+            sym.partial = dict(bind)
         args = {}
         argvals = []
         for (an, aty) in o["args"]:
@@ -300,13 +364,14 @@ def run_obligation(prop, o, tier):
         pre = list(sym.assumes)
         if o.get("pre"):
             pre.append(o["pre"](args))
-        val = validate_translation(prog, o, fn)
+        val = validate_translation(prog, o, fn) if not (bind and o.get("_validated")) else {"validated": 0, "note": "validated on the first sweep value"}
+        o["_validated"] = True
         res["translation_validation"] = val
         if val.get("mismatches"):
             res.update(verdict="inconclusive", seconds=time.time() - t0,
                        detail="MIR interpretation disagrees with the native build (encoding error): " + json.dumps(val["mismatches"][0])[:300])
             return res
-        ex = Executor(prog, unroll=o.get("unroll", 8), models=_models.MODELS, max_paths=o.get("max_paths", 20000))
+        ex = Executor(prog, unroll=o.get("unroll", 8), models=_extra_models(o, args) + _models.MODELS, max_paths=o.get("max_paths", 20000))
         ex.const_env = o.get("const_generics", {})
         st = State()
         paths = ex.run(fn, argvals, st)
@@ -379,8 +444,11 @@ def run_obligation(prop, o, tier):
             res["solver_s"] += q["z3_s"] + q["cvc5_s"]
             if q["verdict"] == "sat":
                 res["witnesses_satisfied"] += 1
+                res.setdefault("witness_names", []).append(wname)
                 wsamples.append({"witness": wname, "model": {k: v for k, v in (q["model"] or {}).items() if "!" not in k}})
             elif q["verdict"] == "unsat":
+                if bind:
+                    continue  # under a sweep a witness only has to be satisfiable for some value
                 verdict, detail = "vacuous", "witness unsatisfiable: " + wname
                 break
             else:
@@ -394,6 +462,7 @@ def run_obligation(prop, o, tier):
                      "paths": len(paths), "panic_sites_checked": len(ex.obligations), "witness_models": wsamples[:3]}
     if verdict == "violated":
         cex = {k: v for k, v in (model or {}).items() if "!" not in k}
+        cex.update(bind or {})
         res["counterexample"] = cex
         res.update(replay_violation(prop, o, cex, detail))
     return res
@@ -482,3 +551,43 @@ def run(prop, obligations, tier, seed):
     order = {o["name"]: i for i, o in enumerate(obligations)}
     out.sort(key=lambda r: order[r["obligation"]["name"]])
     return out
+
+
+def replay_file(prop, path):
+    """./check <ID> --replay <file.json>: re-run a stored model against the current tree (native build and
+    concrete MIR interpretation) and evaluate the reference on it. exit 1 if it still violates."""
+    rec = json.load(open(path))
+    o = [x for x in prop["obligations"] if x["name"] == rec["obligation"]][0]
+    prog = program(o["crates"])
+    fn = find_target(prog, o["fn"])
+    consts = rec["inputs"]
+    sym = Sym(prog, consts)
+    args = {}
+    argvals = []
+    for (an, aty) in o["args"]:
+        v = sym.make(aty, an)
+        args[an] = v
+        argvals.append(v)
+    args["__consts__"] = consts
+    ex = Executor(prog, unroll=o.get("unroll", 8) + 64, models=_extra_models(o, args) + _models.MODELS)
+    ex.const_env = o.get("const_generics", {})
+    paths = ex.run(fn, argvals, State())
+    panicked = any((lambda c: c.is_const and c.val)(tm.and_(*ob["pc"])) for ob in ex.obligations)
+    mine = "panic" if panicked else flatten(paths[0][1])
+    nat = o.get("native")
+    got = None
+    if nat:
+        from . import native
+        got = native.call(nat["fn"], [consts.get(a, 0) for a in nat["args"]])
+        if got != mine:
+            print(f"replay {path}: native={got} encoding={mine}: encoding error")
+            return 2
+    bad = panicked
+    if not panicked and o.get("post"):
+        ok = o["post"](args, paths[0][1])
+        bad = not (ok.is_const and ok.val)
+    print(f"replay {path}: result={mine} native={got} violates={'yes' if bad else 'no'}")
+    if bad:
+        print(f"VIOLATION property={prop['id']} replay={path}")
+        return 1
+    return 0
